@@ -74,12 +74,22 @@ class AliasGenerator:
         # Pass discriminator metadata if this is a union type
         discriminator = schema.discriminator if hasattr(schema, "discriminator") else None
 
+        # The mapping names schemas by their spec name; the emitted class/module may differ (sanitised, de-collided)
+        mapping_types: dict[str, tuple[str, str]] = {}
+        if discriminator and discriminator.mapping:
+            for schema_ref in discriminator.mapping.values():
+                mapped_name = schema_ref.split("/")[-1]
+                mapped = self.all_schemas.get(mapped_name)
+                if mapped is not None and mapped.generation_name and mapped.final_module_stem:
+                    mapping_types[mapped_name] = (mapped.generation_name, mapped.final_module_stem)
+
         rendered_code = self.renderer.render_alias(
             alias_name=alias_name,
             target_type=target_type,
             description=schema.description,
             context=context,
             discriminator=discriminator,
+            mapping_types=mapping_types,
         )
 
         # Post-condition
